@@ -265,6 +265,10 @@ Definition plain_byte (c : ascii) : bool :=
   || Ascii.eqb c (ascii_of_N 58).
 Definition plain (w : bytes) : bool := forallb plain_byte w.
 Definition no_slash (w : bytes) : bool := forallb (fun c => negb (Ascii.eqb c slash)) w.
+(* package names: Go identifiers (ASCII letters, digits, '_', and any byte of a multi-byte UTF-8 letter) *)
+Definition ident_byte (c : ascii) : bool :=
+  is_letter c || is_digit c || Ascii.eqb c (ascii_of_N 95) || N.leb 128 (N_of_ascii c).
+Definition ident (w : bytes) : bool := forallb ident_byte w.
 
 (* Known-finding class "build_constraint_in_body" (textual over-approximation of "some rendered //-comment is a
    //go:build or // +build line"): go/printer moves such lines above the header comment. *)
